@@ -117,6 +117,12 @@ def simulate(sched, t0, cancel_at=INF):
     t_exp = t0 + sched['timeout'] if sched['timeout'] is not None else INF
     cands = {'fin': t_fin, 'crit': t_crit, 'exp': t_exp, 'ext': cancel_at}
     t_close = min(cands.values())
+    late_cancel = INF
+    if cancel_at > t_close:
+        # the run closes by itself first; the cancellation may still arrive
+        # while it waits for its cancelled jobs or shuts down (see the end)
+        late_cancel = cancel_at
+        cands['ext'] = INF
     if t_close == INF:
         raise Tie("never ends")
     hit = [k for k, v in cands.items() if v == t_close]
@@ -179,8 +185,8 @@ def simulate(sched, t0, cancel_at=INF):
             # active when the run closes: cancelled in that instant
             if S.is_sched(m):
                 sub = simulate(m, start, cancel_at=t_close)
-                if sub.trigger != 'ext':
-                    raise Tie("nested run closes by itself first")
+                if sub.kind != 'cancelled':
+                    raise Tie("nested run not cancelled after all")
                 pred.members[mid] = (start, sub.over, 'cancelled')
                 pred.subs[mid] = sub
                 t_c = max(t_c, sub.over)
@@ -227,6 +233,27 @@ def simulate(sched, t0, cancel_at=INF):
         raise Tie("unbounded shutdown")
     pred.t_c, pred.d_sd = t_c, d_sd
     pred.over = t_c + d_sd
+    if late_cancel < pred.over:
+        # cancelled by the enclosing scheduler during its own closing phases
+        if late_cancel == t_c or any(
+                end == late_cancel for _, end, _ in pred.members.values()):
+            raise Tie("cancelled in the instant a closing phase ends")
+        if late_cancel < t_c:
+            # still waiting for cancelled jobs: they are cancelled again,
+            # which cuts their cleanup short; then the shutdown phase
+            for mid, (start, end, kind) in list(pred.members.items()):
+                if kind in ('cancelled', 'cexc') and end > late_cancel:
+                    if mid in pred.subs:
+                        raise Tie("nested run cancelled twice")
+                    pred.members[mid] = (start, late_cancel, kind)
+            pred.t_c = late_cancel
+            pred.over = late_cancel + d_sd
+        else:
+            # shutting down: the pending handlers are cancelled at once
+            pred.d_sd = late_cancel - t_c
+            pred.over = late_cancel
+        pred.kind, pred.value = 'cancelled', None
+        return pred
     raising = sched['cls'] == 'Scheduler' and sched['critical']
     if trigger == 'fin':
         pred.kind, pred.value = 'ret:True', True
@@ -282,6 +309,8 @@ def compare(hist, pred_top):
         trig = pred.trigger
         tprop = TRIGGER_PROP[trig]
         word = TRIGGER_WORD[trig]
+        if pred.kind == 'cancelled':
+            tprop = 'C11'       # ended by the enclosing scheduler's cancel
         if sr.begin is None or sr.begin[1] - base != pred.t0:
             out.append(('C12', 'model:run-begin',
                         "{} should begin at t={} but began at {}".format(
